@@ -307,7 +307,7 @@ impl Resolver<'_> {
                 // yes, this is not a transform, but this is the most appropriate place for it
 
                 let [list] = unpack::<1>(func.args);
-                let list = list.kind.into_tuple().unwrap();
+                let list = expect_tuple(list, "std.tuple_every")?;
 
                 let mut res = None;
                 for item in list {
@@ -323,7 +323,13 @@ impl Resolver<'_> {
                 // yes, this is not a transform, but this is the most appropriate place for it
 
                 let [func, list] = unpack::<2>(func.args);
-                let list_items = list.kind.into_tuple().unwrap();
+                let ExprKind::Tuple(list_items) = list.kind else {
+                    return Err(Error::new(Reason::Expected {
+                        who: Some("std.tuple_map".to_string()),
+                        expected: "a tuple".to_string(),
+                        found: format!("`{}`", write_pl(list)),
+                    }));
+                };
 
                 let list_items = list_items
                     .into_iter()
@@ -345,8 +351,8 @@ impl Resolver<'_> {
                 // yes, this is not a transform, but this is the most appropriate place for it
 
                 let [a, b] = unpack::<2>(func.args);
-                let a = a.kind.into_tuple().unwrap();
-                let b = b.kind.into_tuple().unwrap();
+                let a = expect_tuple(a, "std.tuple_zip")?;
+                let b = expect_tuple(b, "std.tuple_zip")?;
 
                 let mut res = Vec::new();
                 for (a, b) in std::iter::zip(a, b) {
@@ -360,8 +366,11 @@ impl Resolver<'_> {
                 // yes, this is not a transform, but this is the most appropriate place for it
 
                 let [list] = unpack::<1>(func.args);
-                let list = list.kind.into_tuple().unwrap();
-                let [a, b]: [Expr; 2] = list.try_into().unwrap();
+                let span = list.span;
+                let list = expect_tuple(list, "std._eq")?;
+                let Ok([a, b]) = <[Expr; 2]>::try_from(list) else {
+                    return Err(Error::new_simple("std._eq expects a tuple of two fields").with_span(span));
+                };
 
                 let res = maybe_binop(Some(a), &["std", "eq"], Some(b)).unwrap();
                 return Ok(res);
@@ -1033,6 +1042,20 @@ impl Lineage {
         }
     }
 }
+
+/// The fields of a tuple argument of an internal std function; an error for anything else.
+fn expect_tuple(expr: Expr, who: &str) -> Result<Vec<Expr>> {
+    let span = expr.span;
+    expr.kind.into_tuple().map_err(|kind| {
+        Error::new(Reason::Expected {
+            who: Some(who.to_string()),
+            expected: "a tuple".to_string(),
+            found: format!("`{}`", write_pl(Expr { kind, ..Expr::new(Literal::Null) })),
+        })
+        .with_span(span)
+    })
+}
+
 
 /// Expects closure's args to be resolved.
 /// Note that named args are before positional args, in order of declaration.
